@@ -496,6 +496,10 @@ func c16run(env *core.Env, idx int) core.CaseResult {
 		}
 		res.Count("pages_read", 1)
 		pages++
+		if pi%2 == 0 {
+			// (the handle is looked at between two pages: where it stands in the listing is not part of what Stat reports or resets)
+			_ = core.Recover(func() { _, _ = f.Stat() })
+		}
 		for _, e := range page {
 			got[e.Name()]++
 		}
